@@ -1,14 +1,13 @@
 #!/bin/bash
-# tools/seedmatrix.sh : applies every seeded defect to /repo in turn, runs the quick check of its
-# property, records whether a VIOLATION was reported, and undoes the patch straight afterwards.
+# tools/seedmatrix.sh : for every seeded defect, runs the quick check of its property against a
+# scratch worktree of /repo HEAD with the patch applied (never /repo itself), and records
+# whether a VIOLATION was reported.  Output: seeded/MATRIX.tsv
 cd /verif
 out=seeded/MATRIX.tsv
 : > $out
 for d in seeded/C*/; do
   s=$(basename $d); prop=${s:0:3}
-  git -C /repo apply /verif/$d/patch.diff || { echo -e "$s\t$prop\tpatch-does-not-apply" >> $out; continue; }
-  res=$(./check $prop quick 2>&1)
-  git -C /repo checkout -- .
+  res=$(tools/seedrun.sh /verif/$d $prop)
   viol=$(echo "$res" | grep -c "^VIOLATION")
   inc=$(echo "$res" | grep -c "^INCONCLUSIVE")
   obs=$(echo "$res" | grep "failed:" | sed 's/.*obligation=\([^ ]*\) .*/\1/; s/.*failed: lock-order.*/lock-order/' | sort -u | tr '\n' ',' )
